@@ -1596,7 +1596,9 @@ func AggrFunExpr(query *Query, current Map, expr sqlparser.AggrFunc, opts ...Exp
 		}
 		return result, nil
 	}
-	key := sqlparser.String(expr)
+	// (the memo is shared with the copies made for inner arrays: an aggregate is only
+	// valid for the rows of the query that computed it)
+	key := fmt.Sprintf("%p:%s", query, sqlparser.String(expr))
 	rs, ok := query.singletonExecutions[key]
 	if !ok {
 		scope := map[string]any{"*": query.from}
@@ -2022,5 +2024,7 @@ func CopyQuery(query *Query) *Query {
 		orderByDefinition: query.orderByDefinition,
 		options:           query.options,
 		postProcessors:    query.postProcessors,
+		// the memo of ONCE / GLOBAL calls belongs to the whole query
+		singletonExecutions: query.singletonExecutions,
 	}
 }
